@@ -1791,17 +1791,24 @@ impl<'de> de::MapAccess<'de> for Compound<'_, 'de> {
             Style::Map {
                 expect,
                 wire,
+                key_text_fast,
                 #[cfg(feature = "bignum")]
                 value_bignum_fast,
                 ..
             } => {
                 #[cfg(feature = "bignum")]
-                let any_fast = self.de.text_fast_path || value_bignum_fast.is_some();
+                let any_fast = *key_text_fast || value_bignum_fast.is_some();
                 #[cfg(not(feature = "bignum"))]
-                let any_fast = self.de.text_fast_path;
+                let any_fast = *key_text_fast;
                 if !any_fast {
                     self.de.add_cost(3)?;
                 }
+                // The text fast path set for the keys skips the type check of
+                // `deserialize_str`; a value may only use it when it is a text on both
+                // sides, otherwise e.g. a wire `opt nat` read at `opt text` is taken
+                // for a text instead of becoming `null`.
+                self.de.text_fast_path = matches!(expect.1.as_ref(), TypeInner::Text)
+                    && matches!(wire.1.as_ref(), TypeInner::Text);
                 #[cfg(feature = "bignum")]
                 {
                     self.de.bignum_vec_fast_path = *value_bignum_fast;
